@@ -707,9 +707,32 @@ def _lineage_of_stored_rows(ctx, chk, f, flow, kind, tabs, ids_n, offs_n, map_n,
                 return node
         return T().visit(_clone(e))
 
+    def through_rows(name_node):
+        """`for a, b in ROWS` with ROWS = [(E0, E1) for ... ]: a stands for E0 (in the comprehension's scope)."""
+        b = binding(name_node)
+        if b is None or b.kind != "elem" or len(b.path) != 1 or not isinstance(b.container, ast.Name):
+            return None
+        dv = flow.def_value(b.container)
+        while isinstance(dv, ast.Call) and isinstance(dv.func, ast.Name) and dv.func.id in ("list", "tuple") and len(dv.args) == 1:
+            dv = dv.args[0]
+        if isinstance(dv, (ast.ListComp, ast.GeneratorExp)) and isinstance(dv.elt, (ast.Tuple, ast.List)) and b.path[0] < len(dv.elt.elts):
+            return dv.elt.elts[b.path[0]]
+        return None
+
+    def pre_expand(v):
+        """v with such row variables replaced by the expressions they stand for (original nodes, so that loop
+        bindings inside the comprehension can still be looked up)."""
+        for n in ast.walk(v):
+            if isinstance(n, ast.Name) and isinstance(n.ctx, ast.Load) and flow.def_value(n) is None:
+                inner = through_rows(n)
+                if inner is not None and v is n:
+                    return inner
+        return v
+
     def resolve(v, sid_name):
         """v with LIST[sid] replaced by what the row loop appended to LIST; None if some LIST[sid] is not an aligned list."""
         ok = [True]
+        v = pre_expand(v)
         ex = flow.expand(v, keep={sid_name, ids_n, offs_n, map_n} | set(appended))
         if sid_name.startswith("Subscript("):
             # the dump of an expanded copy has no positions either: compare structurally
@@ -744,6 +767,18 @@ def _lineage_of_stored_rows(ctx, chk, f, flow, kind, tabs, ids_n, offs_n, map_n,
             pn = pn.elt          # executemany over a generator of parameter dicts: loop roles come from its generators
         if isinstance(pn, ast.Dict):
             pd = {k.value: v for k, v in zip(pn.keys, pn.values) if isinstance(k, ast.Constant)}
+        # by column, whatever the parameters are called (and for positional parameters)
+        if not (isinstance(s.params_node, (ast.GeneratorExp, ast.ListComp))):
+            cv_ = s.column_values(flow)
+            if cv_:
+                pd = dict(pd or {})
+                for col_, e_ in cv_.items():
+                    pd.setdefault(col_, e_)
+                # the column names this rule asks for
+                alias_ = {"zeta_number": "discrete_zeta", "mean_crossing_time": "mean_crossing_time_s"}
+                for col_, e_ in cv_.items():
+                    if col_ in alias_:
+                        pd.setdefault(alias_[col_], e_)
         if pd is None:
             chk.indeterminate("C13.O3", where_of(f, s.call), "parameters of the INSERT into %s are not a literal dict" % s.stmt.table)
             continue
@@ -771,6 +806,8 @@ def _lineage_of_stored_rows(ctx, chk, f, flow, kind, tabs, ids_n, offs_n, map_n,
                             out.setdefault(r, []).append((n, lp))
                         else:
                             dv = flow.def_value(n)
+                            if dv is None:
+                                dv = through_rows(n)
                             if dv is not None and len(seen) < 200:
                                 stack.append(dv)
             return out
@@ -814,6 +851,8 @@ def _lineage_of_stored_rows(ctx, chk, f, flow, kind, tabs, ids_n, offs_n, map_n,
         if s.stmt.table == tabs[0]:
             offcol = "rain_depth_offset_mm" if kind == "rise" else "time_offset_s"
             ov = pd.get(offcol)
+            if isinstance(ov, ast.Name) and flow.def_value(ov) is None and through_rows(ov) is not None:
+                ov = through_rows(ov)
             verdict = None
             if ov is not None and sid_loop is not None:
                 ro = roles_in(ov)
